@@ -20,6 +20,18 @@ CLAIMS = {
   text="Lean 4 theorems C04_merge … C04_buffer_no_loss, C04_one_terminal prove for EVERY timeline (all interleavings, terminals anywhere, malformed inputs) that the two-input cells compute the list-level definition of each combinator; correspondence: all merged timelines of two short scripts per operator on the real crate (local and _threads) + random cold/hot mixes.",
   note=COMMON_NOTE + "zip completes after both inputs have (docs silent).",
   technique="Lean 4 proof (induction over the merged timeline with generalised cell state) + differential correspondence check"),
+ "C01": dict(
+  text="Lean 4 theorem C01_grammar: for EVERY pipeline of the modelled synchronous catalogue (structural induction over the Pipe type: hot subjects, all cold sources incl. create with malformed scripts, every single-input operator with arbitrary closures/parameters, start_with, defer, the eight two-input combinators; any depth/shape) and EVERY event list (post-terminal events, repeated terminals, unsubscription anywhere) the probe log is items* terminal?. Correspondence on random pipelines under the kind projection; oracle regex N*(E|C)? on the implementation log.",
+  note=COMMON_NOTE + "Catalogue: the Pipe type of RxModel/Pipe/World.lean; scheduler-using operators, merge_all, share and group_by are exercised by their own suites. Rust move semantics (an un-shared observer cannot be called after its terminal) is modelled, not verified.",
+  technique="Lean 4 proof (structural induction over pipelines + simulation lemmas per node kind + discipline lemma for slot-owning cells) + differential correspondence check"),
+ "C02": dict(
+  text="Lean 4 theorem C02_silent: for every pipeline of the synchronous catalogue, every history before the cut and every continuation, nothing is delivered after unsubscribe() (invariant `quiet`: every subscriber slot at a leaf is empty, preserved by every action and implying empty output). Correspondence: unsub injected at every position of the C01 case population; oracle: no delivery after the cut on the implementation.",
+  note=COMMON_NOTE + "Partial: synchronous catalogue only in this revision; scheduler-owned tasks (delay, observe_on, debounce, throttle, interval …) and the lock-level interleavings of _threads forms are not yet covered here.",
+  technique="Lean 4 proof (invariant by induction over event lists and pipelines) + differential correspondence check"),
+ "C17": dict(
+  text="Lean 4 theorems C17_sound, C17_monotone, C17_after_unsub over the subscription algebra of the synchronous catalogue ((), Subscriber, ZipSubscription, boxed): closed ⇒ quiet ⇒ nothing delivered, for all pipelines and histories. Correspondence: is_closed() sampled after every event; oracle on the implementation: no delivery after closed=1, monotone, closed after unsubscribe.",
+  note=COMMON_NOTE + "Partial: MultiSubscription/TaskHandle/RefCount/Finalizer subscriptions and late append are not yet covered in this revision.",
+  technique="Lean 4 proof (structural induction, closed ⇒ quiet invariant) + differential correspondence check"),
 }
 
 def chk(pid, c):
